@@ -23,8 +23,8 @@ func init() { register("C09", checkC09) }
 
 func checkC09(c *Ctx) {
 	r := c.R
-	r.Explanation = "Decides structural necessary conditions of C09 on the limiter type that NewCoalescing builds (events/ratelimiting). Fields and functions are resolved by role (types, exported API, dataflow), not by unexported names; every rule is evaluated on a path-sensitive exploration of Run/Add/Close and the goroutine bodies with all same-package callees followed as if inlined. (L1) pending counter/timer/current window/back-off factor only under the limiter's lock (W for writes); (L2) no wg.Wait while holding a lock that a goroutine counted in the wait group needs to terminate — the Close/Run deadlock; (L3) signals never exceed Adds: a signal (goroutine sending on Run's event channel) is started only for a pending count known positive that is zeroed in the same write-lock section; (L4) every go statement is preceded by wg.Add on every path, every goroutine body reaches wg.Done on every exit, Close reaches wg.Wait on every path; (L6) Add counts the event and starts the token goroutine (blocking send on the token channel) in one write-lock section on every path that is not the closed early-return; (L7) the pending count is never zeroed unless a signal is started for it or it is known zero (no Add lost); at a window expiry the pending events are fired; with no window open the token fires immediately and opens a window of the initial delay; reaching the cap (>=) fires immediately; (L8) timer.Reset only after Stop with the channel drained when Stop reported false; (L9) the back-off factor grows only under a strict current<max test and the current window is clamped to max before it is used or the lock released; (L10) the expiry path restores the idle state; (L11) every signalling goroutine waits on a context derived in Run (not the caller's) and Run cancels it on every return. Shutdown cases in helper goroutines are reported as NOTE only. NOT decided: the window/back-off timeline values, 'first Add immediate' and 'no Add lost' over all interleavings."
-	r.Assumptions = append(r.Assumptions, "type-based lock identity (one limiter instance per receiver)", "the event channel is the channel parameter of the exported Run, followed through calls, closures and go statements", "the pending counter is only ever incremented by one or zeroed (checked), hence never negative")
+	r.Explanation = "Decides structural necessary conditions of C09 on the limiter type that NewCoalescing builds (events/ratelimiting). The type, its Run/Add/Close and its fields are resolved by role (exported anchors, types, dataflow; fields also through grouped sub-structs held by value, pointer or embedding), unexported names only as a reported fallback. Every rule is evaluated on a path-sensitive exploration (one abstract state per path, deferred calls replayed) of Run, Add, Close, the other exported methods and every goroutine body (in the context of its go statement), with same-package callees followed as if inlined: static calls, closures, method values, func-typed fields assigned one function, single-implementation interfaces, closures handed to library functions, literal tables of steps (counted loops unrolled); constant/flag/enum/tuple results of helpers and flags written to captured variables stay correlated with the caller's branches. (L1) pending counter/timer/current window/back-off factor only under the limiter's lock (W for writes); (L2) no wg.Wait while holding a lock that a goroutine counted in the wait group needs to terminate — the Close/Run deadlock; (L3) signals never exceed Adds: a signal (goroutine sending on Run's event channel, at most one send per goroutine) is started only for a pending count known positive that is zeroed in the same write-lock section; (L4) every go statement is preceded by wg.Add on every path, every wg.Add is followed by its go statement or the function's own Done, every goroutine body reaches wg.Done on every exit, Close reaches wg.Wait on every path; (L6) Add counts the event and starts the token goroutine (blocking send on the token channel) in one write-lock section on every path that is not the closed early-return; (L7) the pending count is never zeroed unless a signal is started for it or it is known zero (no counted Add dropped); at a window expiry the pending events are fired; with no window open the token fires immediately, arms a timer of the initial delay and sets the window flag; reaching the cap (>=) fires immediately; (L8) timer.Reset only after Stop with the channel drained when Stop reported false; (L9) the back-off factor grows only under a strict current<max test and the current window is clamped to max before it is used or the lock released; (L10) the expiry section restores the idle state (current=initial, factor=1, flag=false, timer=nil); (L11) every signalling goroutine waits on a context derived in Run (not the caller's) and Run cancels it on every return. Shutdown cases in helper goroutines (L5) are reported as NOTE only. UNDECIDED when a role cannot be resolved, a call inside the explored code cannot be followed (then would-be violations of that exploration are not reported as such), a store/comparison has an unrecognised shape, or a bound is exceeded. NOT decided: the window/back-off timeline values, 'first Add immediate', 'every Add followed by a signal in time' and 'no Add lost' over all interleavings."
+	r.Assumptions = append(r.Assumptions, "type-based lock identity (one limiter instance per receiver)", "the event channel is the channel parameter of the exported Run, followed through calls, closures and go statements", "the pending counter is only ever incremented by one or zeroed (checked), hence never negative", "bounds: call depth 12, 2048 abstract states per block, 16 tracked reads of the pending counter, loop unrolling only for counted loops over literal tables, 4 remembered call results / 3 local flags / first 2 results of a helper per path")
 	r.Rule("C09.L1-guard", "window state only under the limiter lock (W for writes)", 5)
 	r.Rule("C09.L2-wait-under-lock", "wg.Wait is not called holding a lock a counted goroutine needs", 1)
 	r.Rule("C09.L3-signals-le-adds", "a signal is started only for a positive pending count that is zeroed in the same write-lock section", 1)
